@@ -146,7 +146,7 @@ func payloadCodecs() []*codec {
 		}
 		return vs
 	})
-	minv.withSizeVar().cheap = true
+	minv.withSizeVar()
 	minv.reject = func() []namedBytes {
 		return []namedBytes{{"33-hashes", cat(varint(payload.MaxMPTHashesCount+1), rep(1, 32*(payload.MaxMPTHashesCount+1)))}}
 	}
@@ -161,7 +161,7 @@ func payloadCodecs() []*codec {
 		}
 		return vs
 	})
-	gb.withSizeVar().cheap = true
+	gb.withSizeVar()
 	gb.reject = func() []namedBytes {
 		return []namedBytes{{"count-0", cat(rep(0, 32), []byte{0, 0})}, {"count--2", cat(rep(0, 32), []byte{0xfe, 0xff})}}
 	}
@@ -175,7 +175,7 @@ func payloadCodecs() []*codec {
 		}
 		return vs
 	})
-	gbi.withSizeVar().cheap = true
+	gbi.withSizeVar()
 	gbi.reject = func() []namedBytes {
 		return []namedBytes{{"count-0", []byte{0, 0, 0, 0, 0, 0}}, {"count-2001", []byte{0, 0, 0, 0, 0xd1, 0x07}}, {"count--2", []byte{0, 0, 0, 0, 0xfe, 0xff}}}
 	}
@@ -238,7 +238,7 @@ func payloadCodecs() []*codec {
 		}
 		return vs
 	})
-	pg.withSizeVar().cheap = true
+	pg.withSizeVar()
 	out = append(out, pg)
 
 	ext := ser[payload.Extensible]("payload.Extensible", pp, func(bool) []*payload.Extensible { return extensibles() })
@@ -619,7 +619,7 @@ func stateRootCodecs() []*codec {
 		}
 		return vs
 	})
-	vote.withSizeVar().cheap = true
+	vote.withSizeVar()
 	vote.reject = func() []namedBytes { return []namedBytes{{"signature-65", cat(rep(0, 8), []byte{65}, rep(1, 65))}} }
 	msg := ser[stateroot.Message]("stateroot.Message", "pkg/services/stateroot", func(th bool) []*stateroot.Message {
 		var vs []*stateroot.Message
